@@ -25,6 +25,7 @@ RULE = (
     "num_threads in {None,1,2,3,4,8,16} in the shipped serial build, an OpenMP rebuild of the generated C, an ASan+UBSan "
     "build and a TSan build (libgomp happens-before shim); the .pyx sources interpreted by M-PYX with an iteration-ownership "
     "monitor; wrapper functions spied for argument / thread-count forwarding. A case = one entry point x shape x value class."
+    " The positions reaching the kernels through the generators are compared with the isometrized call positions."
 )
 ASSUMPTIONS = [
     "Cython is not installed: native builds come from the Cython-generated C/C++ shipped next to the .pyx (OPENMP=False baked in: "
